@@ -56,7 +56,7 @@ FWFamilies == {[k |-> k, poisoned |-> p] : k \in Widths, p \in BOOLEAN}
 RefLoop(k, poisoned, en, x) ==
   LET items == <<MixFn(AccW(k)), Body(k, poisoned), Main(Blk(<<>>))>>
       m == MainCtx(items, G0)
-      C == [fns |-> m.G.fns, al |-> m.G.al, wit |-> EmptyFn, args |-> EmptyFn]
+      C == [fns |-> m.G.fns, al |-> m.G.al, wit |-> EmptyFn, args |-> EmptyFn, env |-> DummyEnv]
       w == AccW(k)
   IN WhileLoop(m.G.fns["body"], VU(BitsOfNat(1, w)), VTup(<<VBool(en), VU(BitsOfNat(x, k))>>), 0, k, C)
 
